@@ -92,9 +92,10 @@ class Report:
 
     # ---- output ----------------------------------------------------------------------------
     def finish(self, explanation, assumptions=(), trusted_base=(), level="other"):
-        out_dir = VERIF / "out" / "violations"
+        base = Path(os.environ["VERIF_OUT_DIR"]) if os.environ.get("VERIF_OUT_DIR") else VERIF
+        out_dir = base / "out" / "violations"
         out_dir.mkdir(parents=True, exist_ok=True)
-        ev_dir = VERIF / "evidence"
+        ev_dir = base / "evidence"
         ev_dir.mkdir(exist_ok=True)
         for k, what in self.known_hits:
             print("KNOWN-FINDING: property=%s %s %s" % (self.pid, k, what))
